@@ -1,9 +1,9 @@
 SPECIFICATION Spec
 CONSTANTS
-  Deltas = {-2, -1, 1, 2, 7}
-  Pairwise = FALSE
+  Pairwise = TRUE
   MaxLabel = 63
   MaxName = 255
-INVARIANT ExactOK
+INVARIANT Inverse
+INVARIANT MessageInverse
 INVARIANT Emit
 CHECK_DEADLOCK FALSE
